@@ -1,0 +1,193 @@
+//go:build verif
+
+// Contracts for package ipfix, checked by /verif/govc (comment-only file; it declares nothing).
+package ipfix
+
+//@ globalinv shardNo == 32
+//@ globalinv errUknownMarshalDataType != nil
+
+//@ pred rdr(r *reader.Reader) = r != nil && inv(r)
+//@ pred nonfatal(e error) = e != nil && typeid(e) == tyof(nonfatalError)
+//@ pred fatal(e error) = e != nil && typeid(e) != tyof(nonfatalError)
+//@ pred wellFormed(m MemCache) = len(m) == 32 && (forall i :: 0 <= i && i < 32 ==> m[i] != nil && !m[i].Templates.isnil)
+
+//@ pred mhdrAt(h MessageHeader, b []byte, p mathint) = h.Version == be16(b, p) && h.Length == be16(b, p+2)
+//@     && h.ExportTime == be32(b, p+4) && h.SequenceNo == be32(b, p+8) && h.DomainID == be32(b, p+12)
+
+// ---- headers ------------------------------------------------------------------------------------
+
+//@ func (*MessageHeader).unmarshal
+//@   requires rdr(r)
+//@   ensures inv(r) && r.base == old(r.base) && r.count >= old(r.count)
+//@   ensures old(len(r.data)) >= 16 ==> err == nil && r.count == old(r.count) + 16 && mhdrAt(h, r.base, old(r.count))
+//@   ensures old(len(r.data)) < 16 ==> err != nil
+//@   modifies h, r.data, r.count
+
+//@ func (*MessageHeader).validate
+//@   ensures err == nil <==> h.Version == 10
+
+//@ func (*SetHeader).unmarshal
+//@   requires rdr(r)
+//@   ensures inv(r) && r.base == old(r.base) && r.count >= old(r.count)
+//@   ensures old(len(r.data)) >= 4 ==> err == nil && r.count == old(r.count) + 4 && h.SetID == be16(r.base, old(r.count)) && h.Length == be16(r.base, old(r.count)+2)
+//@   ensures old(len(r.data)) < 4 ==> err == reader.errReader
+//@   modifies h, r.data, r.count
+
+//@ func (*TemplateHeader).unmarshal
+//@   requires rdr(r)
+//@   ensures inv(r) && r.base == old(r.base) && r.count >= old(r.count)
+//@   ensures old(len(r.data)) >= 4 ==> err == nil && r.count == old(r.count) + 4 && t.TemplateID == be16(r.base, old(r.count)) && t.FieldCount == be16(r.base, old(r.count)+2) && t.ScopeFieldCount == old(t.ScopeFieldCount)
+//@   ensures old(len(r.data)) < 4 ==> err != nil
+//@   modifies t, r.data, r.count
+
+//@ func (*TemplateHeader).unmarshalOpts
+//@   requires rdr(r)
+//@   ensures inv(r) && r.base == old(r.base) && r.count >= old(r.count)
+//@   ensures old(len(r.data)) >= 6 ==> err == nil && r.count == old(r.count) + 6 && t.TemplateID == be16(r.base, old(r.count)) && t.FieldCount == be16(r.base, old(r.count)+2) && t.ScopeFieldCount == be16(r.base, old(r.count)+4)
+//@   ensures old(len(r.data)) < 6 ==> err != nil
+//@   modifies t, r.data, r.count
+
+// RFC 7011 3.2: the enterprise bit is the top bit of the first 16-bit word
+//@ func (*TemplateFieldSpecifier).unmarshal
+//@   requires rdr(r)
+//@   ensures inv(r) && r.base == old(r.base) && r.count >= old(r.count)
+//@   ensures err == nil ==> r.count >= old(r.count) + 4
+//@   ensures old(len(r.data)) >= 4 && be16(r.base, old(r.count)) < 32768 ==> err == nil && r.count == old(r.count) + 4
+//@       && f.ElementID == be16(r.base, old(r.count)) && f.Length == be16(r.base, old(r.count)+2) && f.EnterpriseNo == 0
+//@   ensures [ebit] old(len(r.data)) >= 8 && be16(r.base, old(r.count)) >= 32768 ==> err == nil && r.count == old(r.count) + 8
+//@       && f.ElementID == be16(r.base, old(r.count)) - 32768 && f.Length == be16(r.base, old(r.count)+2) && f.EnterpriseNo == be32(r.base, old(r.count)+4)
+//@   ensures old(len(r.data)) < 4 ==> err != nil
+//@   ensures old(len(r.data)) < 8 && be16(r.base, old(r.count)) >= 32768 ==> err != nil
+//@   modifies f, r.data, r.count
+
+//@ func (*TemplateRecord).unmarshal
+//@   requires rdr(r)
+//@   ensures inv(r) && r.base == old(r.base) && r.count >= old(r.count)
+//@   ensures err == nil ==> r.count >= old(r.count) + 4 && tr.TemplateID == be16(r.base, old(r.count)) && tr.FieldCount == be16(r.base, old(r.count)+2)
+//@   ensures err == nil ==> len(tr.FieldSpecifiers) == old(len(tr.FieldSpecifiers)) + tr.FieldCount
+//@   ensures err == nil ==> r.count >= old(r.count) + 4 + 4*tr.FieldCount
+//@   modifies tr, r.data, r.count
+//@   loop 1
+//@     invariant rdr(r) && r.base == old(r.base) && tr != nil
+//@     invariant 0 <= i && i <= th.FieldCount && tr.TemplateID == th.TemplateID && tr.FieldCount == th.FieldCount
+//@     invariant th.TemplateID == be16(r.base, old(r.count)) && th.FieldCount == be16(r.base, old(r.count)+2)
+//@     invariant len(tr.FieldSpecifiers) == old(len(tr.FieldSpecifiers)) + (th.FieldCount - i)
+//@     invariant r.count >= old(r.count) + 4 + 4*(th.FieldCount - i)
+//@     decreases i
+
+//@ func (*TemplateRecord).unmarshalOpts
+//@   requires rdr(r)
+//@   ensures inv(r) && r.base == old(r.base) && r.count >= old(r.count)
+//@   ensures err == nil ==> r.count >= old(r.count) + 6 && tr.TemplateID == be16(r.base, old(r.count)) && tr.FieldCount == be16(r.base, old(r.count)+2) && tr.ScopeFieldCount == be16(r.base, old(r.count)+4)
+//@   modifies tr, r.data, r.count
+//@   loop 1
+//@     invariant rdr(r) && r.base == old(r.base) && tr != nil && r.count >= old(r.count) + 6
+//@     invariant tr.TemplateID == be16(r.base, old(r.count)) && tr.FieldCount == be16(r.base, old(r.count)+2) && tr.ScopeFieldCount == be16(r.base, old(r.count)+4)
+//@     invariant 0 <= i
+//@     decreases i
+//@   loop 2
+//@     invariant rdr(r) && r.base == old(r.base) && tr != nil && r.count >= old(r.count) + 6
+//@     invariant tr.TemplateID == be16(r.base, old(r.count)) && tr.FieldCount == be16(r.base, old(r.count)+2) && tr.ScopeFieldCount == be16(r.base, old(r.count)+4)
+//@     invariant 0 <= i
+//@     decreases i
+
+// ---- data records -------------------------------------------------------------------------------
+
+//@ pred isVarLen(t FieldType, l mathint) = (t == String || t == OctetArray) && l == 65535
+
+//@ func (*Decoder).getDataLength
+//@   requires rdr(d.reader)
+//@   ensures rdr(d.reader) && d.reader.base == old(d.reader.base) && d.raddr == old(d.raddr) && d.reader.count >= old(d.reader.count)
+//@   ensures !isVarLen(t, fieldSpecifierLen) ==> err == nil && result == fieldSpecifierLen && d.reader.count == old(d.reader.count)
+//@   ensures isVarLen(t, fieldSpecifierLen) && old(len(d.reader.data)) >= 1 && be8(d.reader.base, old(d.reader.count)) < 255 ==>
+//@       err == nil && result == be8(d.reader.base, old(d.reader.count)) && d.reader.count == old(d.reader.count) + 1
+//@   ensures isVarLen(t, fieldSpecifierLen) && old(len(d.reader.data)) >= 3 && be8(d.reader.base, old(d.reader.count)) == 255 ==>
+//@       err == nil && result == be16(d.reader.base, old(d.reader.count)+1) && d.reader.count == old(d.reader.count) + 3
+//@   ensures isVarLen(t, fieldSpecifierLen) && old(len(d.reader.data)) < 1 ==> fatal(err)
+//@   ensures isVarLen(t, fieldSpecifierLen) && old(len(d.reader.data)) >= 1 && old(len(d.reader.data)) < 3 && be8(d.reader.base, old(d.reader.count)) == 255 ==> fatal(err)
+//@   ensures err != nil ==> fatal(err)
+//@   ensures isVarLen(t, fieldSpecifierLen) && err == nil ==> d.reader.count > old(d.reader.count)
+//@   modifies d.reader.data, d.reader.count
+
+//@ func (*Decoder).decodeData
+//@   requires rdr(d.reader)
+//@   ensures rdr(d.reader) && d.reader.base == old(d.reader.base) && d.raddr == old(d.raddr) && d.reader.count >= old(d.reader.count)
+//@   ensures err == nil ==> len(result) == len(tr.ScopeFieldSpecifiers) + len(tr.FieldSpecifiers) && len(result) > 0
+//@   ensures [progress] err == nil ==> d.reader.count > old(d.reader.count)
+//@   ensures err != nil ==> len(result) == 0
+//@   modifies d.reader.data, d.reader.count
+//@   loop 1
+//@     invariant rdr(d.reader) && d.reader.base == old(d.reader.base) && d.raddr == old(d.raddr) && d.reader.count >= old(d.reader.count) && r == d.reader
+//@     invariant 0 <= i && i <= len(tr.ScopeFieldSpecifiers) && len(fields) == i
+//@     decreases len(tr.ScopeFieldSpecifiers) - i
+//@   loop 2
+//@     invariant rdr(d.reader) && d.reader.base == old(d.reader.base) && d.raddr == old(d.raddr) && d.reader.count >= old(d.reader.count) && r == d.reader
+//@     invariant 0 <= i && i <= len(tr.FieldSpecifiers) && len(fields) == len(tr.ScopeFieldSpecifiers) + i
+//@     decreases len(tr.FieldSpecifiers) - i
+
+// ---- sets and messages --------------------------------------------------------------------------
+
+//@ func NewDecoder
+//@   ensures result != nil && result.raddr == raddr && rdr(result.reader) && result.reader.base == b && result.reader.count == 0
+
+//@ func (*Decoder).decodeSet
+//@   requires rdr(d.reader) && msg != nil && wellFormed(mem) && len(d.reader.base) <= 65535
+//@   ensures rdr(d.reader) && d.reader.base == old(d.reader.base) && d.raddr == old(d.raddr) && d.reader.count >= old(d.reader.count) && wellFormed(mem)
+//@   ensures [hdr] err == nil || nonfatal(err) ==> old(len(d.reader.data)) >= 4 && be16(d.reader.base, old(d.reader.count)+2) >= 4
+//@   ensures [advance] err == nil || nonfatal(err) ==> d.reader.count == old(d.reader.count) + be16(d.reader.base, old(d.reader.count)+2)
+//@   ensures [records] len(msg.DataSets) >= old(len(msg.DataSets)) && len(msg.DataSets) - old(len(msg.DataSets)) <= d.reader.count - old(d.reader.count)
+//@   ensures msg.Header == old(msg.Header) && msg.AgentID == old(msg.AgentID)
+//@   modifies d.reader.data, d.reader.count, msg.DataSets
+//@   loop 1
+//@     invariant [rdr] rdr(d.reader) && d.reader.base == old(d.reader.base)
+//@     invariant [raddr] d.raddr == old(d.raddr) && msg != nil && setHeader != nil
+//@     invariant [wf] wellFormed(mem)
+//@     invariant msg.Header == old(msg.Header) && msg.AgentID == old(msg.AgentID)
+//@     invariant startCount == old(d.reader.count) && d.reader.count >= startCount + 4 && old(len(d.reader.data)) >= 4
+//@     invariant setHeader.Length == be16(d.reader.base, startCount+2) && setHeader.SetID == be16(d.reader.base, startCount) && setHeader.Length >= 4
+//@     invariant len(msg.DataSets) >= old(len(msg.DataSets)) && len(msg.DataSets) - old(len(msg.DataSets)) <= d.reader.count - startCount - 4
+//@     decreases len(d.reader.data) + (err == nil ? 1 : 0)
+
+//@ func (*Decoder).Decode
+//@   requires rdr(d.reader) && d.reader.count == 0 && len(d.reader.base) <= 65535 && wellFormed(mem)
+//@   ensures (len(old(d.reader.base)) < 16 || be16(old(d.reader.base), 0) != 10) ==> result == nil && err != nil
+//@   ensures result != nil ==> mhdrAt(result.Header, old(d.reader.base), 0)
+//@   ensures [records] result != nil ==> len(result.DataSets) <= len(old(d.reader.base))
+//@   modifies d.reader.data, d.reader.count
+//@   loop 1
+//@     invariant rdr(d.reader) && d.reader.base == old(d.reader.base) && msg != nil && wellFormed(mem) && d.reader.count >= 16
+//@     invariant mhdrAt(msg.Header, d.reader.base, 0)
+//@     invariant len(msg.DataSets) <= d.reader.count
+//@     invariant forall i :: 0 <= i && i < len(decodeErrors) ==> decodeErrors[i] != nil
+//@     decreases len(d.reader.data)
+
+//@ func combineErrors
+//@   requires forall i :: 0 <= i && i < len(errorSlice) ==> errorSlice[i] != nil
+//@   ensures len(errorSlice) == 0 ==> err == nil
+//@   ensures len(errorSlice) > 0 ==> err != nil
+//@   loop 1
+//@     invariant true
+
+// ---- interpretation -----------------------------------------------------------------------------
+
+//@ spec specMinLen(t FieldType) mathint = (t == Boolean || t == Uint8 || t == Int8) ? 1 : ((t == Uint16 || t == Int16) ? 2 : ((t == Uint32 || t == Int32 || t == Float32 || t == DateTimeSeconds || t == Ipv4Address) ? 4
+//@     : ((t == Uint64 || t == Int64 || t == Float64 || t == DateTimeMilliseconds || t == DateTimeMicroseconds || t == DateTimeNanoseconds) ? 8 : (t == MacAddress ? 6 : (t == Ipv6Address ? 16 : 0)))))
+
+//@ func (FieldType).minLen
+//@   ensures result == specMinLen(t)
+
+//@ func Interpret
+//@   requires b != nil
+
+// ---- template cache -----------------------------------------------------------------------------
+
+//@ func (MemCache).getShard
+//@   requires wellFormed(m)
+//@   ensures result != nil && !result.Templates.isnil
+//@   ensures exists i :: 0 <= i && i < 32 && result == m[i]
+
+//@ func (MemCache).insert
+//@   requires wellFormed(m)
+
+//@ func (MemCache).retrieve
+//@   requires wellFormed(m)
